@@ -29,6 +29,7 @@ type Var struct {
 	Spelling string `json:"spelling"`       // abs | rel | dot | dslash | updown
 	CLI      bool   `json:"cli"`
 	PreExist bool   `json:"pre_exist,omitempty"` // longer files already sit at the output names
+	Siblings bool   `json:"siblings,omitempty"` // files that are not inputs, but whose names match an input's name read as a glob pattern, lie beside the inputs
 	Overlap  int    `json:"overlap,omitempty"`   // (case level) this many runs on different sets overlap in time within one process (absolute paths, no chdir)
 	DupMixed bool   `json:"dup_mixed,omitempty"` // (case level) the first input is listed twice; in the variation the repeat uses the other spelling
 }
@@ -56,6 +57,9 @@ func spell(p, cwd, how string) string {
 		return strings.ReplaceAll(p, "/w/", "//w///")
 	case "updown":
 		return filepath.Dir(p) + "/zsub/../" + filepath.Base(p)
+	case "symup":
+		// through a symbolic link to a directory two levels down: lexically the same path, physically "zlink/.." is zsub/deeper/..
+		return filepath.Dir(p) + "/zlink/../" + filepath.Base(p)
 	}
 	return p
 }
@@ -83,6 +87,21 @@ func create(c Case, v Var) (map[string][]byte, string) {
 		os.MkdirAll(filepath.Join(dir, filepath.Dir(n), "zsub"), 0o755)
 	}
 	os.MkdirAll(filepath.Join(root, "elsewhere"), 0o755)
+	for _, n := range append([]string{"."}, names...) {
+		// every directory that holds an input has a link "zlink" to <dir>/zsub/deeper, and zsub holds decoys with the inputs' base names
+		d := filepath.Join(dir, filepath.Dir(n))
+		os.MkdirAll(filepath.Join(d, "zsub", "deeper"), 0o755)
+		os.Symlink(filepath.Join("zsub", "deeper"), filepath.Join(d, "zlink"))
+		if n != "." {
+			os.WriteFile(filepath.Join(d, "zsub", filepath.Base(n)), []byte("decoy with the same base name"), 0o644)
+		}
+	}
+	if v.Siblings {
+		// files that are not inputs but would match an input's name taken as a glob pattern
+		for _, sib := range []string{"track1.bin", "whatX.txt", "whatY.txt", "st_r.dat"} {
+			os.WriteFile(filepath.Join(dir, sib), []byte("not an input: "+sib), 0o644)
+		}
+	}
 	if c.Format == "par2" && len(v.Perm) == len(names) {
 		pn := make([]string, len(names))
 		for i, k := range v.Perm {
@@ -90,7 +109,10 @@ func create(c Case, v Var) (map[string][]byte, string) {
 		}
 		names = pn
 	}
-	cwd := map[string]string{"set": dir, "parent": filepath.Join(root, "p"), "unrelated": filepath.Join(root, "elsewhere")}[v.Cwd]
+	cwd := map[string]string{"set": dir, "parent": filepath.Join(root, "p"), "unrelated": filepath.Join(root, "elsewhere"), "removed": filepath.Join(root, "gone")}[v.Cwd]
+	if v.Cwd == "removed" {
+		os.MkdirAll(cwd, 0o755)
+	}
 	if cwd == "" {
 		cwd = filepath.Join(root, "elsewhere")
 	}
@@ -98,7 +120,11 @@ func create(c Case, v Var) (map[string][]byte, string) {
 	if c.Format == "par1" {
 		ext = ".par"
 	}
-	idx := spell(filepath.Join(dir, "set"+ext), cwd, v.Spelling)
+	idxSpelling := v.Spelling
+	if idxSpelling == "symup" {
+		idxSpelling = "abs" // where the index is written is the caller's choice; only the inputs are spelled through the link
+	}
+	idx := spell(filepath.Join(dir, "set"+ext), cwd, idxSpelling)
 	var paths []string
 	for _, n := range names {
 		paths = append(paths, spell(filepath.Join(dir, n), cwd, v.Spelling))
@@ -142,6 +168,10 @@ func create(c Case, v Var) (map[string][]byte, string) {
 	} else {
 		old, _ := os.Getwd()
 		os.Chdir(cwd)
+		if v.Cwd == "removed" {
+			// the working directory no longer exists (only absolute spellings make sense from here)
+			os.Remove(cwd)
+		}
 		var err error
 		pan, msg := run.Safe(func() {
 			if c.Format == "par2" {
@@ -377,6 +407,33 @@ func TestCheck(t *testing.T) {
 			rec.Class("file-names-that-look-like-options")
 			do(Case{Format: "par2", Files: dashed, Slice: 4, N: 2, Var: Var{G: 1, Cwd: "set", Spelling: sp, CLI: true}})
 			do(Case{Format: "par1", Files: dashed[:3], N: 1 + k%2, Var: Var{G: 1, Cwd: "set", Spelling: sp, CLI: true}})
+		}
+	}
+	// input names with glob metacharacters while files matching them as patterns exist; goroutine counts beyond 2^31 on the command line
+	globby := []scen.FileSpec{{Name: "track[1].bin", Size: 12, Kind: "random", Seed: 41}, {Name: "what?.txt", Size: 9, Kind: "random", Seed: 42}, {Name: "st*r.dat", Size: 7, Kind: "random", Seed: 43}}
+	for k, sp := range []string{"rel", "abs", "dot"} {
+		idx++
+		if cfg.Mine(idx) {
+			rec.Class("glob-metacharacters-with-matching-siblings")
+			do(Case{Format: "par2", Files: globby, Slice: 4, N: 2, Var: Var{G: 1, Cwd: "set", Spelling: sp, CLI: true, Siblings: true}})
+			do(Case{Format: "par1", Files: globby, N: 1 + k%2, Var: Var{G: 1, Cwd: "set", Spelling: sp, CLI: true, Siblings: true}})
+			do(Case{Format: "par2", Files: files4, Slice: 8, N: 3, Var: Var{G: []int{1 << 31, 3000000000, 1<<32 + 1}[k], Cwd: "parent", Spelling: sp, CLI: true}})
+		}
+	}
+	// a working directory that has been removed (absolute spellings).  Spellings through symbolic links ("link/..") are not
+	// varied: what such a path names is decided by the kernel, not by its spelling, and PAR1 and PAR2 Create legitimately
+	// differ in whether they normalise it first
+	for k, f := range []string{"par2", "par1", "par2", "par1"} {
+		idx++
+		if cfg.Mine(idx) {
+			rec.Class("removed-cwd")
+			fl := files4
+			if f == "par1" {
+				fl = []scen.FileSpec{{Name: "a.dat", Size: 10, Kind: "random", Seed: 1}, {Name: "b.bin", Size: 33, Kind: "random", Seed: 2}}
+			}
+			if k >= 2 {
+				do(Case{Format: f, Files: fl, Slice: 4, N: 2, Var: Var{G: 1, Cwd: "removed", Spelling: "abs"}})
+			}
 		}
 	}
 	// repeated runs that overlap in time (one process, unrelated sets, no shared paths)
